@@ -128,9 +128,7 @@ theorem bipEdge_inv {nodes : List Nat} {es : List Edge} {st : Bip} (hI : BInv2 n
   simp only []
   rw [bipLink_fold (nodes := nodes) _ _ _ (by
     intro i x hx
-    simp only [AL.get?_set]
-    have : ¬ (Obj.edge e = Obj.node x) := by intro h; cases h
-    simp only [this, if_false]; exact hI.inv i x hx) he]
+    exact hI.inv i x hx) he]
   have hkeys1 : AL.keys (st.g.addNode (.E es.length) (some 1)).nodes =
       (List.range nodes.length).map BV.N ++ (List.range (es ++ [e]).length).map BV.E := by
     simp only [Graph.addNode, List.length_append, List.length_singleton]
@@ -221,9 +219,7 @@ theorem bipEdge_inv {nodes : List Nat} {es : List Edge} {st : Bip} (hI : BInv2 n
                    apply List.getElem?_eq_none; simp; omega
                  rw [this, List.getElem?_eq_none (by omega)]
   · intro i x hx
-    simp only [AL.get?_set]
-    have : ¬ (Obj.edge e = Obj.node x) := by intro h; cases h
-    simp only [this, if_false]; exact hI.inv i x hx
+    exact hI.inv i x hx
 
 theorem bip_loop2 (nodes : List Nat) (hnd : nodes.Nodup) (es : List Edge) (hmem : ∀ e ∈ es, ∀ x ∈ e, x ∈ nodes) :
     BInv2 nodes es (bipartite nodes es) := by
@@ -240,5 +236,44 @@ theorem bip_loop2 (nodes : List Nat) (hnd : nodes.Nodup) (es : List Edge) (hmem 
     rw [List.zipIdx_append, List.foldl_append]
     have := bipEdge_inv (ih (fun e' he' => hmem e' (by simp [he']))) e (hmem e (by simp)) hnd
     simpa using this
+
+/-! ### the routine before the repair (one table for node labels and hyperedge tuples) -/
+
+/-- same graph, same id table, and the node part of `obj_to_id` agrees -/
+def BipSim (a b : Bip) : Prop :=
+  a.g = b.g ∧ a.idToObj = b.idToObj ∧ ∀ n, AL.get? a.objToId (.node n) = AL.get? b.objToId (.node n)
+
+theorem bipLink_sim (ev : BV) {a b : Bip} (h : BipSim a b) (n : Nat) : BipSim (bipLink ev a n) (bipLink ev b n) := by
+  obtain ⟨hg, ht, ho⟩ := h
+  unfold bipLink
+  rw [ho n]
+  cases AL.get? b.objToId (.node n) with
+  | none => exact ⟨hg, ht, ho⟩
+  | some v => exact ⟨by simp [hg], ht, ho⟩
+
+theorem bipLink_fold_sim (ev : BV) (l : List Nat) {a b : Bip} (h : BipSim a b) :
+    BipSim (l.foldl (bipLink ev) a) (l.foldl (bipLink ev) b) := by
+  induction l generalizing a b with
+  | nil => exact h
+  | cons x t ih => exact ih (bipLink_sim ev h x)
+
+theorem bipEdgeShared_sim (tl : Edge → Option Nat) (p : Edge × Nat) (hp : tl p.1 = none) {a b : Bip} (h : BipSim a b) :
+    BipSim (bipEdgeShared tl a p) (bipEdge b p) := by
+  obtain ⟨hg, ht, ho⟩ := h
+  unfold bipEdgeShared bipEdge
+  apply bipLink_fold_sim
+  refine ⟨by simp [hg], by simp [ht], ?_⟩
+  intro n
+  have hk : edgeKey tl p.1 = Obj.edge p.1 := by simp [edgeKey, hp]
+  have hne : ¬ (Obj.edge p.1 = Obj.node n) := by intro h; cases h
+  simp only [hk, AL.get?_set, hne, if_false]
+  exact ho n
+
+theorem bipShared_fold_sim (tl : Edge → Option Nat) (ps : List (Edge × Nat)) (hps : ∀ p ∈ ps, tl p.1 = none) {a b : Bip}
+    (h : BipSim a b) : BipSim (ps.foldl (bipEdgeShared tl) a) (ps.foldl bipEdge b) := by
+  induction ps generalizing a b with
+  | nil => exact h
+  | cons p t ih =>
+    exact ih (fun q hq => hps q (by simp [hq])) (bipEdgeShared_sim tl p (hps p (by simp)) h)
 
 end C10
